@@ -64,6 +64,8 @@ def run_case(cfg, ctx):
     ok, q = ctx.call(base, qenv.build, cfg)
     if not ok:
       return
+    if cfg.get("route"):
+      ctx.count("route." + cfg["route"])
     rng = np.random.default_rng(cfg["seed"] * 104729 + cfg["idx"])
     x = fixed.probes(fmt, rng=rng, max_codes=4096 if ctx.tier == "quick" else 70000)
     ok, y = ctx.call(base, qenv.call, q, x)
@@ -88,6 +90,15 @@ def run_case(cfg, ctx):
       tie = (frac[:-1] <= fmt.slack) & (frac[1:] <= fmt.slack) & (np.floor(e[:-1]) == np.floor(e[1:]))
       ctx.skip("real_surrogate_tie_inversions", int(((d < 0) & tie).sum()))
       d = np.where(tie, 0.0, d)
+    if not fixed.is_dyadic(fmt.alpha) and (d < 0).any():
+      # a non-dyadic constant scale: alpha*code and x + (-x + xq) are rounded float32 values, so two
+      # inputs with the same (or adjacent) code may come out inverted by that rounding noise; only
+      # inversions larger than the noise bound of C01's lattice test count (appendix C)
+      unit = abs(fmt.alpha) * fmt.step
+      tol = (fixed.code_tolerance(fmt, x[:-1], y[:-1], y[:-1] / unit) +
+             fixed.code_tolerance(fmt, x[1:], y[1:], y[1:] / unit)) * unit
+      ctx.skip("non_dyadic_scale_rounding_inversions", int(((d < 0) & (-d <= tol)).sum()))
+      d = np.where(-d <= tol, 0.0, d)
     if (d < 0).any():
       i = int(np.argmin(d))
       ctx.violation(dict(base, kind="not_monotone"),
@@ -101,6 +112,11 @@ def run_case(cfg, ctx):
       if ok:
         ctx.count("idempotence_checked")
         ne = y2 != y
+        if not fixed.is_dyadic(fmt.alpha):
+          unit = abs(fmt.alpha) * fmt.step
+          tol = (fixed.code_tolerance(fmt, x, y, y / unit) + fixed.code_tolerance(fmt, y, y2, y2 / unit)) * unit
+          ctx.skip("non_dyadic_scale_rounding_requantization", int((ne & (np.abs(y2.astype(np.float64) - y) <= tol)).sum()))
+          ne = ne & (np.abs(y2.astype(np.float64) - y) > tol)
         if ne.any():
           i = int(np.argmax(ne))
           ctx.violation(dict(base, kind="not_idempotent"),
@@ -114,10 +130,15 @@ def run_case(cfg, ctx):
         return
       nearest(ctx, fmt, t.ravel(), yt.ravel(), base, "random rank %d" % t.ndim)
       o = np.argsort(t.ravel(), kind="stable")
-      if (np.diff(yt.ravel()[o].astype(np.float64)) < 0).any():
+      dt = np.diff(yt.ravel()[o].astype(np.float64))
+      rtol = 0.0
+      if not fixed.is_dyadic(fmt.alpha):
+        unit = abs(fmt.alpha) * fmt.step
+        rtol = 2.0 * unit * float(np.max(fixed.code_tolerance(fmt, t.ravel(), yt.ravel(), yt.ravel() / unit)))
+      if (dt < -rtol).any():
         ctx.violation(dict(base, kind="not_monotone"), "random tensor of rank %d" % t.ndim, None)
       if idem:
         ok, yt2 = ctx.call(base, qenv.call, q, yt)
-        if ok and (yt2 != yt).any():
+        if ok and (np.abs(yt2.astype(np.float64) - yt) > rtol).any():
           ctx.violation(dict(base, kind="not_idempotent"), "random tensor of rank %d" % t.ndim,
                         {"q": yt.ravel()[:4].tolist(), "qq": yt2.ravel()[:4].tolist()})
